@@ -256,3 +256,26 @@ func passViaBoolHelperBad(x int) {
 type rec struct{ A, B string }
 
 func decode(dst *rec) {}
+
+// ---- flag variables (phi of constants) ----
+func flagGuard() {
+	p, err := produce()
+	ok := true
+	if err != nil {
+		ok = false
+	}
+	if ok {
+		sink(p)
+	}
+}
+
+func flagGuardBad() {
+	p, err := produce()
+	ok := true
+	if err != nil {
+		ok = cond()
+	}
+	if ok {
+		sink(p)
+	}
+}
